@@ -5,6 +5,7 @@ import (
 	"io"
 
 	"capnproto.org/go/capnp/v3/simrt"
+	"verifh/ref/packedref"
 	"verifh/ref/wire"
 )
 
@@ -29,6 +30,7 @@ type simPipe struct {
 	eofAt        int
 	torn         bool // a failed write left the wire in the middle of a frame
 	chunk        int
+	packed       bool // the transport under test is NewPackedStreamTransport: bytes on the pipe are packed
 }
 
 var errPipeClosed = errors.New("rpcsim: pipe closed")
@@ -49,6 +51,9 @@ func (p *simPipe) Read(b []byte) (int, error) {
 		p.r.toConn = p.r.toConn[1:]
 		p.r.peer.delivered(wm)
 		p.rbuf = wm.data
+		if p.packed {
+			p.rbuf = packedref.Pack(wm.data)
+		}
 	}
 	if len(p.rbuf) == 0 {
 		return 0, errPipeClosed
@@ -91,8 +96,14 @@ func (p *simPipe) Write(b []byte) (int, error) {
 		return 0, errPipeClosed
 	}
 	p.wirebuf = append(p.wirebuf, b[:accept]...)
+	// the unpacked byte stream the peer sees so far (every word determined by the bytes on the wire)
+	stream, midItem := p.wirebuf, false
+	if p.packed {
+		d := packedref.UnpackDetail(p.wirebuf)
+		stream, midItem = d.Out, d.Status != packedref.OK
+	}
 	if err != nil {
-		if _, trailing := wire.FrameBoundaries(p.wirebuf[p.parsed:]); trailing > 0 {
+		if _, trailing := wire.FrameBoundaries(stream[p.parsed:]); trailing > 0 || midItem {
 			p.torn = true
 			p.s.Probe("torn_write_left_partial_frame")
 		}
@@ -100,11 +111,11 @@ func (p *simPipe) Write(b []byte) (int, error) {
 	}
 	// hand complete frames to the peer
 	for {
-		_, used, perr := wire.ParseFrame(p.wirebuf[p.parsed:])
+		_, used, perr := wire.ParseFrame(stream[p.parsed:])
 		if perr != nil {
 			break
 		}
-		frame := p.wirebuf[p.parsed : p.parsed+used]
+		frame := stream[p.parsed : p.parsed+used]
 		p.parsed += used
 		p.r.toPeer = append(p.r.toPeer, wireMsg{seq: p.s.Seq(), data: append([]byte(nil), frame...)})
 	}
